@@ -69,6 +69,7 @@ def step (line : String) : String :=
   | id :: _cls :: "dcmi" :: args => s!"{id} {evalDcmi args}"
   | id :: _cls :: "time" :: args => s!"{id} {evalTime args}"
   | id :: _cls :: "conc" :: args => s!"{id} {evalConc args}"
+  | id :: _cls :: "concu" :: args => s!"{id} {evalConc args}"
   | id :: _cls :: "api" :: args => s!"{id} {evalApi args}"
   | id :: _cls :: "bmcopen" :: args => s!"{id} {evalBmcOpen args}"
   | id :: _cls :: "bmcseal" :: args => s!"{id} {evalBmcSeal args}"
